@@ -82,7 +82,7 @@ class C14(Prop):
                   "stays started and one that has completed stays completed (it runs at most once), and a started line -- of the "
                   "method or of a snippet -- lies in a scope that has started (the snippet's lines run inside the snippet's own "
                   "scopes, no injection starts a method line outside its scope: stack invariant carried through the "
-                  "injections; hypotheses wf_b and parentless injected roots, evaluated by the monitor on every case). That a snippet without "
+                  "injections; likewise a Watch body runs only after activation and a Block body only with the lock; hypotheses wf_b and parentless injected roots, evaluated by the monitor on every case). That a snippet without "
                   "blocks leaves the method lines exactly where an injection-free run has them is decided by the Coq monitor; "
                   "one clause is refuted (an injected Block can never be ended: known finding). Not covered: Pause / Hold, the "
                   "command manager, live edits (they drop unfinished injected code: same defect family as C01).")
